@@ -167,6 +167,39 @@ func checkC04E2E(c C04Conf, o *vcore.Obs) error {
 			return err
 		}
 	}
+	// Before the sweeper gets to them, markers travel in every snapshot for as long as they exist -
+	// also the ones already older than the retention (a peer may still hold an older live version)
+	if _, err := s.SendOnce(context.Background(), env.Env); err != nil {
+		return fmt.Errorf("SendOnce: %v", err)
+	}
+	if ls, err := bucket.List(context.Background(), ""); err == nil && len(ls.Names()) > 0 {
+		names := ls.Names()
+		data, err := bucket.Load(context.Background(), names[len(names)-1])
+		if err != nil {
+			return err
+		}
+		flat, err := DecodeBlob(data)
+		if err != nil {
+			return fmt.Errorf("uploaded snapshot: %v", err)
+		}
+		inSnap := map[string]uint32{}
+		for _, d := range flat.DBIs {
+			for _, e := range d.Entries {
+				inSnap[string(e.Key)] = e.Flags | 0x100
+			}
+		}
+		wantMarkers := []string{"young"}
+		if haveExpired {
+			wantMarkers = append(wantMarkers, "expired")
+		}
+		for _, k := range wantMarkers {
+			if fl, ok := inSnap[k]; !ok || fl&1 == 0 {
+				return fmt.Errorf("the deletion marker for %q exists in the LMDB but the uploaded snapshot does not carry it (entry present=%v): markers travel in every snapshot for as long as they exist (retention %v)", k, ok, r)
+			}
+		}
+	} else {
+		return fmt.Errorf("SendOnce stored nothing")
+	}
 	swp := sweeper.New(DBName, sw, env.Env, logrus.StandardLogger(), true)
 	if err := swp.VerifSweepOnce(context.Background()); err != nil {
 		return fmt.Errorf("sweep: %v", err)
